@@ -363,6 +363,13 @@ def extract(repo: Path) -> Tuple[Dict[str, Any], List[str]]:
     t = parse("_glue.py")
     helper_ops: List[str] = []
     if t is not None:
+        # unwrap_thread: the test that decides "this is the calling thread" (answered with a slice ending at the caller)
+        ut = next((n for n in ast.walk(t) if isinstance(n, ast.FunctionDef) and n.name == "unwrap_thread"), None)
+        first_if = next((st for st in (ut.body if ut else []) if isinstance(st, ast.If)), None)
+        if first_if is None:
+            problems.append("_glue.unwrap_thread: no leading `if` (the calling-thread test) found")
+        else:
+            out["unwrapThreadShortcut"] = ast.unparse(first_if.test)
         host = None
         for n in ast.walk(t):
             if isinstance(n, (ast.FunctionDef, ast.AsyncFunctionDef)) and any(
